@@ -154,7 +154,8 @@ class C17(Prop):
                 for b in range(a):
                     if rng.random() < p:
                         edges.add((a, b))
-        kinds = ['p' if rng.random() < 0.35 else 'b' for _ in range(n)]
+        pe = rng.choice([0.0, 0.15, 0.3])      # command-less bash jobs: barriers that only carry depends_on edges
+        kinds = [('e' if rng.random() < pe else 'p' if rng.random() < 0.35 else 'b') for _ in range(n)]
         explicit, resource = [], []
         callres = {}                # python consumer -> [producer, ...] passed through call arguments
         all_edges = [[perm[a], perm[b]] for (a, b) in sorted(edges)]
@@ -169,7 +170,7 @@ class C17(Prop):
             r = rng.random()
             if e[0] == e[1]:
                 explicit.append(e)      # only depends_on can make a job depend on itself
-            elif r < 0.35:
+            elif r < 0.35 or 'e' in (kinds[e[0]], kinds[e[1]]):
                 explicit.append(e)
             elif kinds[e[0]] == 'b':
                 resource.append(e)
@@ -214,6 +215,7 @@ class C17(Prop):
         ar = [1 if rng.random() < 0.2 else 0 for _ in range(n)]
         pf = rng.random()
         fails = [1 if rng.random() < (0.0 if pf < 0.2 else 0.25 if pf < 0.8 else 0.6) else 0 for _ in range(n)]
+        fails = [0 if kinds[i] == 'e' else f for i, f in enumerate(fails)]    # a job without a command cannot fail
         return {'n': n, 'kinds': kinds, 'explicit': explicit, 'resource': resource, 'calls': calls, 'always_run': ar, 'fails': fails}
 
     def cases(self, rng, n, tier):
@@ -245,6 +247,8 @@ class C17(Prop):
                 for i, j in enumerate(jobs):
                     if kinds[i] == 'p':
                         first_result[i] = j.call(verif_fn, i)
+                    elif kinds[i] == 'e':
+                        pass        # a barrier: no command, no resources
                     else:
                         j.declare_resource_group(grp={'a': '{root}.a', 'b': '{root}.b'})
                         j.command(f'echo {i} > {j.ofile}; touch {j.grp.a} {j.grp.b}')
@@ -328,7 +332,8 @@ class C17(Prop):
             toks = ['deps', j, 'E', len(ex)] + ex + ['C', len(cs)] + cs + ['A', len(args)] + [x for t in args for x in tree_tokens(t)] \
                 + ['K', len(kws)] + [x for t in kws for x in tree_tokens(t)]
             lines.append(' '.join(map(str, toks)))
-        toks = [c['n']] + c['always_run'] + c['fails']
+        kinds = c.get('kinds') or ['b'] * c['n']
+        toks = [c['n']] + c['always_run'] + c['fails'] + [0 if k == 'e' else 1 for k in kinds]
         for ds in r['deps']:
             toks += [len(ds)] + ds
         return lines + [' '.join(map(str, toks))]
@@ -342,8 +347,10 @@ class C17(Prop):
             return head + ['cycle' if 'cycle detected' in r['exc'][1] else 'batchexception ' + r['exc'][1][:60]]
         if r['exc'] and r['exc'][0] in ('assert', 'keyerror'):
             return head + [r['exc'][0]]
-        ex = [int(name[1:]) for name, _ in r['calls'] if name]
-        sk = [j for j in r['order'] if j not in ex]
+        kinds = c.get('kinds') or ['b'] * c['n']
+        # observable: which jobs WITH commands ran (whether the empty shell block of a command-less job is spawned is immaterial)
+        ex = [int(name[1:]) for name, _ in r['calls'] if name and kinds[int(name[1:])] != 'e']
+        sk = [j for j in r['order'] if j not in ex and kinds[j] != 'e']
         s = lambda l: ','.join(map(str, l))
         return head + [f'order={s(r["order"])} exec={s(ex)} skip={s(sk)} exc={1 if r["exc"] else 0}']
 
@@ -428,15 +435,16 @@ class C17(Prop):
                 if j not in skip and not c['always_run'][j] and any((p in skip) or (fails[p] and p not in skip) for p in deps[j]):
                     skip.add(j)
                     changed = True
-        ex = [int(x[1:]) for x in executed]
-        want = [j for j in order if j not in skip]
+        kinds = c.get('kinds') or ['b'] * n
+        ex = [int(x[1:]) for x in executed if kinds[int(x[1:])] != 'e']
+        want = [j for j in order if j not in skip and kinds[j] != 'e']
         if ex != want:
             return (f'executed {ex}, expected {want} (order {order}, skipped should be exactly {sorted(skip)}: failing {[j for j in range(n) if fails[j]]}, '
-                    f'always_run {[j for j in range(n) if c["always_run"][j]]})')
+                    f'always_run {[j for j in range(n) if c["always_run"][j]]}, command-less jobs {[j for j in range(n) if kinds[j] == "e"]})')
         for (name, jid) in r['calls']:
             if jid != pos[int(name[1:])] + 1:
                 return f'job {name} ran under id {jid}, its number is {pos[int(name[1:])] + 1}'
-        if sorted(r['submitted']) != sorted(ex):
+        if sorted(j for j in r['submitted'] if kinds[j] != 'e') != sorted(ex):
             return f'jobs marked submitted {sorted(r["submitted"])} differ from the executed ones {sorted(ex)}'
         raised = bool(r['exc'])
         if raised != any(fails[j] for j in ex):
@@ -452,6 +460,11 @@ class C17(Prop):
         calls = c.get('calls', [])
         if 'p' in (c.get('kinds') or []):
             tags.append('python jobs')
+        if 'e' in (c.get('kinds') or []):
+            tags.append('command-less jobs')
+            kk = c['kinds']
+            if any(kk[p] == 'e' and deps[p] for j in deps for p in deps[j]):
+                tags.append('command-less job between a dependency and a dependent')
         if any(p != call['j'] for call in calls for _k, t in call['kwargs'] for p in tree_sources(t)):
             tags.append('resource in a keyword argument of call()')
         if any(p != call['j'] for call in calls for t in call['args'] for p in tree_sources(t)):
